@@ -4,7 +4,10 @@ set -e
 cd "$(dirname "$0")"
 export CARGO_NET_OFFLINE=true
 (cd harness && cargo build --offline --quiet 2>/dev/null && cargo build --offline --quiet --release 2>/dev/null)
-for m in Bits ModeS Cpr CommB Squitterator TraceCheck; do
-  (cd spec && java -cp /opt/veriftools/tla/tla2tools.jar:/opt/veriftools/tla/CommunityModules-deps.jar tla2sany.SANY $m.tla >/dev/null) || { echo "SANY failed on $m"; exit 1; }
+JT="$(pwd)/.work/setup-jtmp"
+mkdir -p "$JT"
+for m in Bits ModeS Cpr CommB Squitterator TraceCheck Tcp Refresh Dlog; do
+  (cd spec && java -Djava.io.tmpdir="$JT" -cp /opt/veriftools/tla/tla2tools.jar:/opt/veriftools/tla/CommunityModules-deps.jar tla2sany.SANY $m.tla >/dev/null) || { echo "SANY failed on $m"; rm -rf "$JT"; exit 1; }
 done
+rm -rf "$JT"
 echo setup ok
